@@ -2,6 +2,7 @@ package rules
 
 import (
 	"fmt"
+	"go/token"
 	"go/types"
 
 	"golang.org/x/tools/go/ssa"
@@ -264,6 +265,50 @@ func emptinessTested(fn, content *ssa.Function, prepCall *ssa.Call) bool {
 		}
 		if nonEmpty != nil && (nonEmpty == prepCall.Block() || nonEmpty.Dominates(prepCall.Block())) {
 			return true
+		}
+	}
+	// the same test behind a predicate of the package (`if !e.hasContent() { return … }`): a branch on the
+	// answer of a helper that itself compares a length with zero, one side of which leads to preparation()
+	// and the other does not
+	hasLenTest := func(h *ssa.Function) bool {
+		if h == nil || h.Blocks == nil {
+			return false
+		}
+		for _, b := range h.Blocks {
+			for _, ins := range b.Instrs {
+				if bo, ok := ins.(*ssa.BinOp); ok {
+					if k, isConst := bo.Y.(*ssa.Const); isConst && k.Value != nil && k.Int64() == 0 && isAnyLen(bo.X) {
+						return true
+					}
+				}
+			}
+		}
+		return false
+	}
+	for _, b := range fn.Blocks {
+		iff, ok := b.Instrs[len(b.Instrs)-1].(*ssa.If)
+		if !ok {
+			continue
+		}
+		cond := iff.Cond
+		if u, ok := cond.(*ssa.UnOp); ok && u.Op == token.NOT {
+			cond = u.X
+		}
+		call, ok := cond.(*ssa.Call)
+		if !ok {
+			continue
+		}
+		h := call.Call.StaticCallee()
+		if h == nil || load.FuncPkgRel(h) != load.FuncPkgRel(fn) || !hasLenTest(h) {
+			continue
+		}
+		for i, side := range b.Succs {
+			other := b.Succs[1-i]
+			toPrep := side == prepCall.Block() || side.Dominates(prepCall.Block())
+			otherToPrep := other == prepCall.Block() || other.Dominates(prepCall.Block())
+			if toPrep && !otherToPrep {
+				return true
+			}
 		}
 	}
 	return false
